@@ -9,6 +9,8 @@ var (
 	ErrInvalidRegionID = errors.New("pd/core: invalid region id")
 	// ErrRegionHeartbeatStale indicates a region heartbeat regressed epoch.
 	ErrRegionHeartbeatStale = errors.New("pd/core: stale region heartbeat epoch")
+	// ErrInvalidRegionRange indicates the heartbeat carries an empty or inverted key range.
+	ErrInvalidRegionRange = errors.New("pd/core: invalid region key range")
 	// ErrRegionRangeOverlap indicates the incoming region overlaps another region.
 	ErrRegionRangeOverlap = errors.New("pd/core: region range overlap")
 	// ErrInvalidBatch indicates a requested allocation batch is invalid.
